@@ -99,7 +99,8 @@ def check(tier):
                 rep.violation({"property": "C06", "kind": "column-order", "base": r["base"], "program": progs[-1],
                                "note": "RewriteMC: Denote(rewritten) equals Denote(base) only up to the order of the columns"},
                               {"what": "rewrite-column-order", "decls": len(r["decls"])})
-    res = l1check.run(rep, "C06-rw", progs, dbset, {"rows", "order", "frame", "ExecError", "Panic", "rejected-wellformed"})
+    res = l1check.run(rep, "C06-rw", progs, dbset, {"rows", "order", "frame", "ExecError", "Panic", "rejected-wellformed"},
+                      reduce_cap=60 if tier == "quick" else 400)
     st = l1.selftest(os.path.join(ROOT, "corpus", "dbs_quick.json"))
     kinds = {}
     for p in progs:
